@@ -33,6 +33,7 @@ class _Ctx:
         self.pos = 0
         self.pc = []
         self.solver = z3.Solver()
+        self.timeout_ms = timeout_ms
         self.solver.set("timeout", timeout_ms)
         self.solver.add(*assumptions)
         self.queries = 0
@@ -41,6 +42,11 @@ class _Ctx:
 
     def check(self, *extra):
         t = time.time()
+        if DEADLINE is not None:
+            left = DEADLINE - t
+            if left <= 0:
+                raise TimeBudget("wall-clock budget of the check exhausted")
+            self.solver.set("timeout", int(min(self.timeout_ms, left * 1000 + 1)))
         self.solver.push()
         if extra:
             self.solver.add(*extra)
@@ -90,6 +96,11 @@ class _Ctx:
 
 
 CTX: _Ctx | None = None
+DEADLINE: float | None = None  # wall-clock limit of the running check (set by engine.common)
+
+
+class TimeBudget(Exception):
+    """The check's wall-clock budget is exhausted (=> inconclusive, never success)."""
 
 
 def ctx() -> _Ctx:
@@ -533,7 +544,18 @@ class Result:
                     obligations=self.obligations, discharged=self.discharged)
 
 
-def explore(fn, assumptions=(), max_paths=200000, timeout_ms=30000, stop_at_first=True, keep_infos=0) -> Result:
+def _shrink(c, neg, small, model):
+    """Prefer a counterexample with small integers: retry the failing query under growing bounds."""
+    if not small:
+        return model
+    for bound in (8, 64, 1024, 4096 + 64, 65536 + 64, 1 << 21):
+        r, m = c.check(neg, *[z3.And(t >= -bound, t <= bound) for t in small])
+        if r == "sat":
+            return m
+    return model
+
+
+def explore(fn, assumptions=(), max_paths=200000, timeout_ms=30000, stop_at_first=True, keep_infos=0, small=()) -> Result:
     """Run `fn()` once per feasible decision vector.
 
     `fn` returns the property of the path: a bool / SBool / z3 BoolRef, or a tuple
@@ -579,6 +601,7 @@ def explore(fn, assumptions=(), max_paths=200000, timeout_ms=30000, stop_at_firs
                     res.discharged += 1
                 elif r == "sat":
                     if res.cex is None:
+                        model = _shrink(c, z3.Not(term), small, model)
                         res.cex = (model, info, list(c.pc))
                     if stop_at_first:
                         return res
@@ -600,3 +623,46 @@ def model_int(model, term):
 def model_str(model, term):
     v = model.eval(term, model_completion=True)
     return v.as_string()
+
+
+# ---------------------------------------------------------------------------------------------
+# concrete replay: the same harness body, with plain Python values taken from the solver's model
+
+MODEL = None  # set only inside concrete_run
+
+
+def sym_int(term):
+    """Symbolic proxy for `term` — or, during a concrete replay, the model's plain int."""
+    if MODEL is not None:
+        return model_int(MODEL, term)
+    return SInt(term)
+
+
+def sym_bool(term):
+    if MODEL is not None:
+        return z3.is_true(MODEL.eval(term, model_completion=True))
+    return SBool(term)
+
+
+def sym_str(term):
+    if MODEL is not None:
+        return model_str(MODEL, term)
+    return SStr(term)
+
+
+def concrete_run(fn, model):
+    """Re-execute harness body `fn` outside the engine: every input is a plain Python value from
+    `model`, no solver and no proxy is involved; the returned property formula is evaluated under the
+    model.  Returns (holds, info)."""
+    global MODEL, CTX
+    assert CTX is None
+    MODEL = model
+    try:
+        out = fn()
+    finally:
+        MODEL = None
+    info = None
+    if isinstance(out, tuple):
+        out, info = out
+    v = model.eval(zbool(out), model_completion=True)
+    return z3.is_true(v), info
